@@ -25,7 +25,10 @@ ASSUMPTIONS = ['run A (all lower-case) is the reference behaviour; a loki except
 SHARDS = {'quick': 8, 'thorough': 16}
 BUDGET = {'quick': 60, 'thorough': 1200}
 
-PROFILE = gen.profile()          # core profile (triggers of C21 findings switched off)
+PROFILE = gen.profile()          # core profile (triggers of listed C21 findings switched off)
+PROFILE['iface_same_module'] = True       # repaired in /repo by 9676bad: generated again (no boost)
+DEP_IGNORE = ('DependencyTransformation: mixed-case spelling of an `ignore` entry (listed finding '
+              'C23:dep:mixed-case-ignore-entry-not-renamed), entry kept lower-case')
 
 
 def perm(s, bits):
@@ -47,22 +50,32 @@ class KCase:
         return out
 
 
-def permute_cfg(cfg, kc):
+def permute_cfg(cfg, kc, keep_ignore=False):
+    """-> (permuted config, number of `ignore` entries whose spelling was deliberately left alone)"""
     out = copy.deepcopy(cfg)
     conf = out['config']
+    kept = [0]
+
+    def spell(lst, k):
+        v = kc(k)
+        if lst == 'ignore' and keep_ignore and v != k:
+            kc.changed -= 1
+            kept[0] += 1
+            return k
+        return v
     for lst in ('disable', 'block', 'ignore'):
         if lst in conf['default']:
-            conf['default'][lst] = [kc(k) for k in conf['default'][lst]]
+            conf['default'][lst] = [spell(lst, k) for k in conf['default'][lst]]
     newr = {}
     for key, ent in conf['routines'].items():
         ent = dict(ent)
         for lst in ('disable', 'block', 'ignore'):
             if lst in ent:
-                ent[lst] = [kc(k) for k in ent[lst]]
+                ent[lst] = [spell(lst, k) for k in ent[lst]]
         newr[kc(key)] = ent
     conf['routines'] = newr
     out['seeds'] = [kc(s) for s in out['seeds']]
-    return out
+    return out, kept[0]
 
 
 @st.composite
@@ -171,7 +184,12 @@ def order_valid(visits, edges, reverse):
 def check_case(case, ctx):
     proj, cfg, mode, opt = case['proj'], case['cfg'], case['mode'], case['opt']
     kc = KCase(case['kcase'])
-    cfg_b = permute_cfg(cfg, kc)
+    # exclusion by construction of a listed finding: with the DependencyTransformation pipeline the `ignore` entries
+    # keep their lower-case spelling (the committed replay file sets mode['dep_ignore_case'] to exercise the trigger)
+    keep_ignore = mode['pipeline'] == 'dep' and not mode.get('dep_ignore_case')
+    cfg_b, kept = permute_cfg(cfg, kc, keep_ignore)
+    if kept:
+        ctx.exclude(DEP_IGNORE, kept)
     oc = KCase(list(reversed(case['kcase'])))
     classes = [f'pipeline={mode["pipeline"]}', f'plan={mode["plan"]}', f'full_parse={mode["full_parse"]}',
                f'file_graph={mode["file_graph"]}']
@@ -188,8 +206,16 @@ def check_case(case, ctx):
         root = e
         while root.__cause__ is not None:
             root = root.__cause__
-        ctx.fail(f'C23:case-variant-raises:{exc_bucket(root)}', case,
-                 f'pipeline={mode["pipeline"]}: {root!r}'[:400])
+        bucket = exc_bucket(root)
+        mixed_ignore = [k for ent in [cfg_b['config']['default']] + list(cfg_b['config']['routines'].values())
+                        for k in ent.get('ignore', ()) if k != k.lower()]
+        if mode['pipeline'] == 'dep' and mode.get('dep_ignore_case') and mixed_ignore \
+                and bucket == 'RuntimeError@loki/batch/item_factory.py:_get_procedure_item':
+            # listed finding, reachable only from the committed replay file (see keep_ignore above)
+            ctx.fail('C23:dep:mixed-case-ignore-entry-not-renamed', case,
+                     f'ignore entries {mixed_ignore}: {root!r}'[:400])
+        else:
+            ctx.fail(f'C23:case-variant-raises:{bucket}', case, f'pipeline={mode["pipeline"]}: {root!r}'[:400])
         return
     refers = kc.changed + oc.changed
     nontrivial = refers > 0 and len(a['graph0']['items']) >= 3
